@@ -300,6 +300,35 @@ def check(ctx):
                    "for a configuration that has a path of its own, the entry path starts from it" if uses_owner else
                    "%s builds the path of an entry from the field's place in the schema only: for a configuration held in a list (or built "
                    "from a config type) the item index / parent chain is missing from the reported path" % f.qualname, node=r)
+    # ---------------------------------------------------------------- C15.3a3 items copied between proxies keep their container link
+    # _get_item_position answers from the list an item's _container points to.  The "same field, already validated" fast
+    # paths copy items from another ListProxy without going through _validate, i.e. without re-pointing _container: the item
+    # keeps reporting its index in the *source* list, which the configuration may no longer hold.
+    LP = model.cls("ListProxy")
+    for mname, f in sorted(LP.methods.items()):
+        gf = an.cfg(f)
+        for n in gf.nodes:
+            if n.kind != "call" or not isinstance(n.ast.func, ast.Attribute) or n.ast.func.attr not in ("__init__", "extend", "__iadd__", "insert", "append", "__setitem__"):
+                continue
+            recv = n.ast.func.value
+            is_super = (isinstance(recv, ast.Call) and isinstance(recv.func, ast.Name) and recv.func.id == "super") or (isinstance(recv, ast.Name) and recv.id == "list")
+            if not is_super or not n.ast.args:
+                continue
+            data = n.ast.args[-1]
+            if not isinstance(data, ast.Name):
+                continue
+            fast = any(tr and isinstance(t.ast, ast.Call) and isinstance(t.ast.func, ast.Name) and t.ast.func.id == "isinstance"
+                       and isinstance(t.ast.args[0], ast.Name) and t.ast.args[0].id == data.id
+                       and "ListProxy" in (an.ft(f).class_spec(t.ast.args[1], {}) or []) for t, tr in dominating_guards(an, f, n))
+            if not fast:
+                continue
+            relinks = [m for m in gf.nodes if m.kind == "assign" and isinstance(m.ast, ast.Assign) and any(
+                isinstance(t, ast.Attribute) and t.attr == "_container" for t in m.ast.targets)]
+            after = any(gf.path(n, lambda x, m=m: x is m, may_raise=lambda x: False, from_successors=True) for m in relinks)
+            ctx.ob("link.container-follows-items", f, n.ast, after,
+                   "configurations copied from another proxy are re-linked to this one" if after else
+                   "%s copies the items of another ListProxy as they are: configurations among them keep _container = the source list, so "
+                   "their reported index is the one in a list the configuration may no longer hold" % f.qualname, node=n)
     # ---------------------------------------------------------------- C15.3b item position
     # (i) the container link is tested for None-ness, not truthiness: a typed list is falsy while empty,
     #     i.e. exactly while its first item is being loaded
